@@ -62,10 +62,15 @@ PROPS = {
     ),
     "C06": dict(
         pkg=FO,
-        explanation="commitCollectionFonts / rollbackCollectionFonts / syncCollectionDirectories executed on the interpreted file system with the real operation table wrapped by fault injection: batches of 1..FONTS staged fonts, each target pre-existing or not (symbolic choice), the first injected failure at any operation call, optionally a second one during rollback; post-state compared with the exact previous directory tree",
-        outside="single-font installs (installFonts / commitStagedFontsWithOperations in pkg/api), certificate import and cheat-sheet publication (same pattern, harness not written); the staging step that parses fonts; more than two failures",
+        explanation="the transactional publication kernels executed on the interpreted file system with the real operation tables wrapped by fault injection: commitCollectionFonts / rollbackCollectionFonts (pkg/font), commitStagedFontsWithOperations + rollback/finalize and publishCheatSheets / rollbackCheatSheets (pkg/api/font.go), publishCertificateImports = stage / backup / publish / rollback / cleanup (pkg/api/certificate.go): batches of 1..FILES staged files, each target pre-existing or not (symbolic), the number of the first failing call a solver variable over every call of the table, optionally a second failing call during rollback; the post-state is compared with the exact previous directory tree (all-or-nothing), and when a rollback/cleanup step itself failed every file that stays behind must be named in the error",
+        outside="the staging steps that parse fonts / certificates and render cheat sheets (installFontInputs, stageUserFontDemoFiles, prepareCertificateImports); installFonts' reload step; more than two failures; crashes (power loss) between steps",
         assumptions=["file system contract of rt/vfs.go"],
-        harnesses=[dict(name="VerifCollectionCommit", bounds=dict(quick=dict(FONTS=2, CALLS=14), thorough=dict(FONTS=3, CALLS=22)), opts=dict(unwind=3000))],
+        harnesses=[
+            dict(name="VerifCollectionCommit", bounds=dict(quick=dict(FONTS=2, CALLS=14), thorough=dict(FONTS=3, CALLS=22)), opts=dict(unwind=3000)),
+            dict(name="VerifFontCommit", pkg=API, bounds=dict(quick=dict(FILES=2, CALLS=20), thorough=dict(FILES=3, CALLS=30)), opts=dict(unwind=3000)),
+            dict(name="VerifCheatSheetPublish", pkg=API, bounds=dict(quick=dict(FILES=2, CALLS=20), thorough=dict(FILES=3, CALLS=30)), opts=dict(unwind=3000)),
+            dict(name="VerifCertificatePublish", pkg=API, bounds=dict(quick=dict(FILES=2, CALLS=24), thorough=dict(FILES=3, CALLS=36)), opts=dict(unwind=3000)),
+        ],
     ),
     "C07": dict(
         pkg=FO,
